@@ -40,7 +40,7 @@ def _worker(job):
         if kind != "canary" and any(ob["status"] != "unsat" for ob in r.obligations.values()):
             # known findings with a region predicate: re-prove the same obligations with the listed regions carved
             # out of the precondition; what still fails is a new violation, what now holds is the known finding
-            regs = [f for f in load_findings() if f.get("status", "open") == "open" and f.get("function") == c.target
+            regs = [f for f in load_findings() if f.get("status", "open") == "open" and _fn_matches(f, c.target)
                     and f.get("region") in getattr(c, "regions", {})]
             if regs:
                 c.excluded = tuple(f["region"] for f in regs)
@@ -412,11 +412,16 @@ def _safe(s):
     return "".join(ch if ch.isalnum() or ch in "._-" else "_" for ch in s)[:180]
 
 
+def _fn_matches(finding, target):
+    """a finding names one function, or several copies of the same code (`functions`)"""
+    return finding.get("function") == target or target in finding.get("functions", ())
+
+
 def match_finding(findings, target, clause, replay, ob):
     """A failure is a *known* finding only if a listed entry names this function+clause and the failing input lies in
     the entry's region (checked by the entry's `match` predicate over the replayed inputs/outcome)."""
     for f in findings:
-        if f.get("function") != target:
+        if not _fn_matches(f, target):
             continue
         pred = f.get("match")
         if f.get("clause") and f["clause"] != clause and pred is None:
